@@ -25,6 +25,7 @@ Op ==
   \/ E.op = "store"      /\ Store(E.args[1], E.args[2])
   \/ E.op = "store_bulk" /\ StoreBulk(Pairs(E.args))
   \/ E.op = "remove"     /\ Remove(E.args[1])
+  \/ E.op = "remove_bulk" /\ RemoveBulk(E.args)
   \/ E.op = "load"       /\ Load(E.args[1]) /\ reply'.val = E.val
   \/ E.op = "load_bulk"  /\ LoadBulk(E.args) /\ reply'.val = E.val
   \/ E.op = "is_cached"  /\ IsCached(E.args[1]) /\ reply'.val = E.val
